@@ -28,7 +28,10 @@ OBS_BODY = """
 <xsl:template match="w" mode="w"><xsl:value-of select="."/></xsl:template>
 <xsl:template match="c" mode="m"><xsl:value-of select="position()"/>/<xsl:value-of select="last()"/>;</xsl:template>
 <xsl:template name="observe">
+  <xsl:variable name="tv">T</xsl:variable><xsl:variable name="tw"><q a="1"/>W</xsl:variable>
   <o p1="{$p1}" p2="{$p2}" p3="{$p3}" g="{$g}" t="{count(//text())}" xsl:use-attribute-sets="as">
+   <tv l="{string-length($tv)}" w="{string-length($tw)}"><xsl:value-of select="$tv"/>|<xsl:copy-of select="$tw"/></tv>
+   <inf><xsl:value-of select="format-number(1 div 0, '#,##0.0')"/>|<xsl:value-of select="format-number(-1 div 0, '#,##0.0')"/>|<xsl:value-of select="format-number(0 div 0, '#,##0.0')"/></inf>
    <xsl:if test="function-available('ext:f1')"><f1><xsl:value-of select="ext:f1()"/></f1></xsl:if>
    <xsl:if test="function-available('ext:f2')"><f2><xsl:value-of select="ext:f2()"/></f2></xsl:if>
    <xsl:if test="function-available('ext:g1')"><g1><xsl:value-of select="ext:g1()"/></g1></xsl:if>
@@ -92,6 +95,45 @@ def _coll(lang, co, order=""):
                   '<xsl:apply-templates select="//w" mode="w"><xsl:sort select="translate(., \'ABC\', \'abc\')"%s/><xsl:sort select="."%s/></xsl:apply-templates>'
                   '<xsl:call-template name="observe"/></out>' % (lang, co, attrs, attrs, attrs))
 
+# one stylesheet per decimal-format symbol: identical to `sym_base` except for that one symbol (and the pattern characters
+# that the symbol redefines)
+_SYMS = {"base": {}, "inf": {"infinity": "INF"}, "nan": {"NaN": "nan!"}, "minus": {"minus-sign": "~"}, "percent": {"percent": "P"},
+         "permille": {"per-mille": "M"}, "decimal": {"decimal-separator": "!"}, "grouping": {"grouping-separator": "_"},
+         "patsep": {"pattern-separator": "|"}, "digit": {"digit": "@"}, "zero": {"zero-digit": "a"}}
+
+
+def _sym(attrs):
+    dec = attrs.get("decimal-separator", "."); grp = attrs.get("grouping-separator", ","); dig = attrs.get("digit", "#")
+    zero = attrs.get("zero-digit", "0"); pct = attrs.get("percent", "%"); pm = attrs.get("per-mille", "\u2030")
+    psep = attrs.get("pattern-separator", ";")
+    pat = "%s%s%s%s%s%s%s%s" % (dig, grp, dig, dig, zero, dec, zero, dig)
+    pat2 = pat + psep + "(" + pat + ")"
+    df = '<xsl:decimal-format name="d"%s/>' % "".join(' %s="%s"' % kv for kv in sorted(attrs.items()))
+    vals = ["1234.5", "-0.5", "1 div 0", "-1 div 0", "0 div 0", "1234567.891"]
+    body = "".join('<v><xsl:value-of select="format-number(%s, \'%s\', \'d\')"/></v>' % (v, pat) for v in vals)
+    body += '<v2><xsl:value-of select="format-number(-7.25, \'%s\', \'d\')"/></v2>' % pat2
+    body += '<pc><xsl:value-of select="format-number(0.256, \'%s%s\', \'d\')"/>|<xsl:value-of select="format-number(0.256, \'%s%s\', \'d\')"/></pc>' % (zero, pct, zero, pm)
+    return _sheet(OUT_XML, df, '<out>' + body + '<xsl:call-template name="observe"/></out>')
+
+
+# aborts at many points inside variable bodies (result tree fragments under construction)
+_RTF_ABORTS = {
+    "text": '<xsl:variable name="v">leak-text' + MSG + '</xsl:variable><xsl:copy-of select="$v"/>',
+    "text_in_elem": '<xsl:variable name="v"><e>inner-text' + MSG + '</e></xsl:variable><xsl:copy-of select="$v"/>',
+    "attr": '<xsl:variable name="v"><e><xsl:attribute name="a">attr-text' + MSG + '</xsl:attribute></e></xsl:variable><xsl:copy-of select="$v"/>',
+    "nested": '<xsl:variable name="v">outer-text<xsl:variable name="w">inner-text' + MSG + '</xsl:variable><xsl:copy-of select="$w"/></xsl:variable><xsl:copy-of select="$v"/>',
+    "tail": '<xsl:variable name="v"><e/><xsl:comment>c</xsl:comment>tail-text' + MSG + '</xsl:variable><xsl:copy-of select="$v"/>',
+    "valueof_err": '<xsl:variable name="v"><xsl:value-of select="name(/*)"/>-vo-<xsl:value-of select="ext:nosuch()"/></xsl:variable><xsl:copy-of select="$v"/>',
+    "withparam": '<xsl:call-template name="rec"><xsl:with-param name="n">param-text' + MSG + '</xsl:with-param></xsl:call-template>',
+    "foreach": '<xsl:variable name="v"><xsl:for-each select="//c">item-<xsl:value-of select="."/><xsl:if test="position() = 2">' + MSG + '</xsl:if></xsl:for-each></xsl:variable><xsl:copy-of select="$v"/>',
+    "text_deep": '<xsl:variable name="v"><a1><a2>deep-text<xsl:variable name="w">w-text<xsl:variable name="x">x-text' + MSG + '</xsl:variable></xsl:variable></a2></a1></xsl:variable><xsl:copy-of select="$v"/>',
+}
+
+# pairs of stylesheets that differ in one output property
+_OUTS = {"decl": 'method="xml"', "standalone": 'method="xml" standalone="yes"', "doctype": 'method="xml" doctype-system="x.dtd"',
+         "utf16": 'method="xml" encoding="UTF-16"', "latin1": 'method="xml" encoding="ISO-8859-1"', "ver11": 'method="xml" version="1.1"',
+         "indent": 'method="xml" indent="yes"', "media": 'method="xml" media-type="text/x" omit-xml-declaration="yes"'}
+
 SHEETS = {
     # ---- observers
     "obs": _sheet(OUT_XML, "", '<out><xsl:call-template name="observe"/></out>'),
@@ -120,6 +162,7 @@ SHEETS = {
     "char_comment": _sheet('<xsl:output method="xml" encoding="US-ASCII" omit-xml-declaration="yes"/>', "", '<out><xsl:call-template name="observe"/><xsl:comment>&#233;</xsl:comment><xsl:processing-instruction name="pi">&#233;</xsl:processing-instruction></out>'),
     "recurse": _sheet(OUT_XML, '<xsl:template name="inf"><xsl:param name="n"/><xsl:if test="$n &lt; 300"><d><xsl:call-template name="inf"><xsl:with-param name="n" select="$n + 1"/></xsl:call-template></d></xsl:if><xsl:if test="$n = 300">' + MSG + '</xsl:if></xsl:template>',
                       '<out><xsl:call-template name="inf"><xsl:with-param name="n" select="0"/></xsl:call-template></out>'),
+    # (generated families are added below: sym_*, rtf_abort_*, out_*)
     # collation: one collator per lang is cached for the transformer's life; case-order is mutable state of it
     "coll_sv_upper": _coll("sv", "upper-first"), "coll_sv_lower": _coll("sv", "lower-first"), "coll_sv": _coll("sv", ""),
     "coll_fr_upper": _coll("fr", "upper-first"), "coll_fr": _coll("fr", ""), "coll_de_lower_desc": _coll("de", "lower-first", "descending"),
@@ -170,6 +213,12 @@ SHEETS = {
     "bad": HEAD + '<xsl:template match="///"><x/></xsl:template></xsl:stylesheet>',
     "bad_wf": HEAD + '<xsl:template match="/"><x></xsl:template></xsl:stylesheet>',
 }
+for _k, _a in _SYMS.items():
+    SHEETS["sym_" + _k] = _sym(_a)
+for _k, _b in _RTF_ABORTS.items():
+    SHEETS["rtf_abort_" + _k] = _sheet(OUT_XML, "", "<out>" + _b + "</out>")
+for _k, _o in _OUTS.items():
+    SHEETS["out_" + _k] = _sheet("<xsl:output %s/>" % _o, "", '<out><xsl:call-template name="observe"/></out>')
 BAD_SHEETS = {"bad", "bad_wf"}
 
 SOURCES = {
@@ -182,10 +231,10 @@ SOURCES = {
 BAD_SOURCES = {"dbad"}
 
 GOOD_SHEETS = sorted(k for k in SHEETS if k not in BAD_SHEETS)
-OBSERVERS = [k for k in GOOD_SHEETS if k.startswith(("obs", "coll_", "fmt_df")) or k in ("nest_ok", "num_any_all")]
+OBSERVERS = [k for k in GOOD_SHEETS if k.startswith(("obs", "coll_", "fmt_df", "sym_", "out_")) or k in ("nest_ok", "num_any_all")]
 ABORTERS = [k for k in GOOD_SHEETS if k not in OBSERVERS]
 # (stylesheet, source) pairs for the memory probe: live bytes of the transformer's MemoryManager must not grow per call
-LEAK_PROBES = [("obs", "d1"), ("num_any_err", "d4"), ("coll_sv_upper", "d4"), ("sort_avt", "d1"), ("sort_fnerr", "d2"), ("key_err", "d1"), ("msg_deep", "d1"), ("xperr_deep", "d1"), ("msg_rtf", "d2"), ("nest_abort", "d2"), ("enc_unknown", "d1")]
+LEAK_PROBES = [("obs", "d1"), ("rtf_abort_nested", "d1"), ("num_any_err", "d4"), ("coll_sv_upper", "d4"), ("sort_avt", "d1"), ("sort_fnerr", "d2"), ("key_err", "d1"), ("msg_deep", "d1"), ("xperr_deep", "d1"), ("msg_rtf", "d2"), ("nest_abort", "d2"), ("enc_unknown", "d1")]
 GOOD_SOURCES = sorted(k for k in SOURCES if k not in BAD_SOURCES)
 
 PARAM_EXPRS = ["'v1'", "'boom'", "'ascending'", "'descending'", "'text'", "'upper-first'", "3", "1+2", "'x_y'", "concat('a','b')", "''", "//no/such", "2*3"]
@@ -343,6 +392,14 @@ CORPUS = [
                          "transform 1 0 4", "transform 0 0 5", "transformsrc fmt_dfdefault d1 6", "transform 2 0 7", "transformsrc fmt_err d1 8", "transform 1 0 9",
                          "transform 2 0 10"]),
     # F1: last write does not win when the same key is set as expression, then as number
+    # breaks E/F of the third seeding: text left in a pooled fragment builder; cache key not carrying every symbol
+    ("rtf-abort-points", sum([["transformsrc rtf_abort_%s d1 %d" % (k, i), "transformsrc obs d1 %d" % i] for i, k in enumerate(sorted(_RTF_ABORTS))], [])),
+    ("decimal-format-symbol-pairs", sum([["transformsrc sym_%s d1 %d" % (k, i), "transformsrc sym_base d1 %d" % i, "transformsrc obs d1 %d" % i]
+                                         for i, k in enumerate(sorted(_SYMS)) if k != "base"], [])),
+    ("decimal-format-symbol-pairs-rev", sum([["transformsrc sym_base d1 %d" % i, "transformsrc sym_%s d1 %d" % (k, i)]
+                                             for i, k in enumerate(sorted(_SYMS)) if k != "base"], [])),
+    ("output-property-pairs", ["compile 0 out_decl ok", "parse 0 d1 ok"] + sum([["transformsrc out_%s d1 %d" % (k, i), "transform 0 0 %d" % i]
+                                                                                for i, k in enumerate(sorted(_OUTS)) if k != "decl"], [])),
     ("param-overwrite", ["setexpr p1 'a'", "setnum p1 5", "transformsrc obs d1 1"]),
     ("param-overwrite-2", ["setnum p1 5", "setexpr p1 'a'", "setnum p1 7", "compile 0 obs ok", "parse 0 d1 ok", "transform 0 0 2"]),
     # abort at depth, then observe with another source at (very likely) the same address
